@@ -66,6 +66,50 @@ def _replace_span_macros(text, log):
     return text
 
 
+def _rewrite_unwrap_or_else(text, kinds, log):
+    """R8b: `RECV.unwrap_or_else(|..| { BODY })` written out as its definition
+    `match RECV { Some(v)/Ok(v) => v, None/Err(_) => { BODY } }` (closure captures &mut state).
+    `kinds` lists, in order of occurrence, whether each receiver is an 'Option' or a 'Result'."""
+    for kind in kinds:
+        m = rl.mask(text)
+        hit = re.search(r'\.unwrap_or_else\(\|_?\| \{', m)
+        if not hit:
+            raise ExtractError('R8b: no unwrap_or_else closure found')
+        bo = hit.end() - 1
+        bc = rl.match_bracket(m, bo)
+        po = m.index('(', hit.start())
+        pc = rl.match_bracket(m, po)
+        if m[bc + 1:pc].strip() != '':
+            raise ExtractError('R8b: unexpected closure shape')
+        # receiver: walk back over a method chain
+        i = hit.start()
+        while i > 0:
+            c = m[i - 1]
+            if c in ')]':
+                depth, j = 0, i - 1
+                while j >= 0:
+                    if m[j] in ')]':
+                        depth += 1
+                    elif m[j] in '([':
+                        depth -= 1
+                        if depth == 0:
+                            break
+                    j -= 1
+                i = j
+            elif c.isalnum() or c in '_.:&':
+                i -= 1
+            else:
+                break
+        recv = text[i:hit.start()]
+        cbody = text[bo:bc + 1]
+        arms = ('Some(v) => v, None =>' if kind == 'Option' else 'Ok(v) => v, Err(_) =>')
+        new = 'match %s { %s %s }' % (recv, arms, cbody)
+        text = text[:i] + new + text[pc + 1:]
+        log.append(dict(rule='R8b:unwrap_or_else', part='body', count=1, matched=[recv + '.unwrap_or_else(..)'], replaced_by='match on the receiver (definition of unwrap_or_else)',
+                        why='closure captures mutable state'))
+    return text
+
+
 def _expand_ready(text, log):
     """R13: `ready!(E)` (futures::ready) written out as its definition, so that ghost arguments
     inside E are seen by the Verus syntax macro."""
@@ -196,6 +240,7 @@ class Fn:
     loops_optional: bool = False   # the invariants are used only if the body (still) has loops
     hoist_contracts: Optional[dict] = None   # contracts for fns of hoisted impls: name -> 'ensures ...' text
     inherited_ensures: str = ''   # ensures clauses inherited from the trait declaration (counted as obligations of this fn)
+    unwrap_or_else: List[str] = field(default_factory=list)   # R8b: 'Option'/'Result' per occurrence
 
 
 @dataclass
@@ -592,6 +637,12 @@ def build_unit(unit: Unit, outdir, repo=None):
                 raise ExtractError('%s: %s' % (f.name, ex))
             lifted.append((lift, cbody))
         # ---- body
+        if f.unwrap_or_else:
+            body = _drop_macro_calls(body, log)
+            try:
+                body = _rewrite_unwrap_or_else(body, f.unwrap_or_else, log)
+            except rl.LexError as ex:
+                raise ExtractError('%s: %s' % (f.name, ex))
         body, counts = process_body(body, f, log)
         # ---- signature
         for r in GLOBAL_SIG_RULES + [x for x in unit.rules if x.where != 'body'] + [x for x in f.rules if x.where != 'body']:
